@@ -23,6 +23,9 @@
       not be closed by a line feed), optionally ended by `.end` (any letter case) followed by
       arbitrary text, which the assembler ignores.
 
+  `stmtTextOf L P i` is the source text of the statement that produced word `i` of the image — what the
+  debugger's `assembly` command must show for address `orig + i` (C17).
+
   `Layout.ok flag L P` is the decidable well-formedness predicate: separators are separators,
   literal spellings denote their words, label names are valid and pairwise distinct, and the
   program is *renderable* (`Prog.renderable`: every `br` has a mnemonic, string bodies can be
@@ -320,6 +323,36 @@ def renderToks (names : Nat → List Char) : List TokLay → List Tok → List C
 
 /-- **The source text of `P` under layout `L`.** -/
 def render (L : Layout) (P : Prog) : List Char := renderToks L.names L.toks P.toks ++ L.trail
+
+/-! ### the source text of a statement (C17) -/
+
+/-- **The text of one statement** whose tokens are `toks` — the mnemonic or directive first, then its
+operands — written with the token layouts `ls`: the spelling of the first token, then every further
+token with the separator (white space, commas, comments) the layout puts in front of it.  The
+separator in front of the first token — and with it any label and its colon — is not part of the
+text, nor is anything behind the last operand. -/
+def stmtText (names : Nat → List Char) (ls : List TokLay) : List Tok → List Char
+  | [] => []
+  | t :: ts => t.spell names (ls.headD {}) ++ renderToks names ls.tail ts
+
+/-- per word an item occupies, the text of the statement that produced it: every word of a `.blkw` /
+`.stringz` has the whole directive's text; a label is skipped; `.orig` / `.break` produce no word -/
+def itemTexts (names : Nat → List Char) (ls : List TokLay) : Item → List (List Char)
+  | .stmt (some _) s => List.replicate s.size (stmtText names ls.tail s.toks)
+  | .stmt none s => List.replicate s.size (stmtText names ls s.toks)
+  | _ => []
+
+def itemsTexts (names : Nat → List Char) : List TokLay → List Item → List (List Char)
+  | _, [] => []
+  | ls, it :: rest => itemTexts names ls it ++ itemsTexts names (ls.drop it.toks.length) rest
+
+/-- per word of the program's image, the source text of its statement in `render L P` -/
+def stmtTexts (L : Layout) (P : Prog) : List (List Char) := itemsTexts L.names L.toks P.items
+
+/-- **The source text of the statement that produced word `i`** of the image of `P`, in the text
+`render L P`: mnemonic or directive through last operand, without label, without what follows.
+`none`: the image has no word `i`. -/
+def stmtTextOf (L : Layout) (P : Prog) (i : Nat) : Option (List Char) := (stmtTexts L P)[i]?
 
 /-! ### well-formed layouts -/
 
